@@ -360,6 +360,7 @@ class PathRun:
             self.nontrivial.add(hashlib.sha1((op["method"] + " " + op["path"]).encode()).hexdigest()[:16])
         sigbase = {"frontend": self.cfg["frontend"], "method": op["method"]}
         flagged = set()
+        tmp_named = set()
         for kind, paths, mut in evs:
             self.count("fs_events_observed")
             for p in paths:
@@ -374,9 +375,14 @@ class PathRun:
                 if zone == "tmp":
                     # anonymous scratch files are fine there (they never get a name); a *named* file
                     # is user data created outside the root, however briefly it lives
-                    if kind in ("creat", "trunc", "write", "rename", "replace", "mkdir", "link", "symlink"):
+                    # anonymous scratch files are fine there, and so is a named scratch file that is
+                    # removed again before the request ends (tempfile falls back to that); a file that
+                    # is moved from there into place, or stays, is user data outside the root
+                    if kind in ("rename", "replace", "link", "symlink"):
                         self.count("tmp_zone_named." + kind)
-                        self.add("C13.user-data-in-temp-dir", "%s %s -> %s: %s of <tmp>/%s" % (op["method"], target, status, kind, os.path.basename(rp)), dict(sigbase, zone="tmp"), flagged)
+                        self.add("C13.user-data-in-temp-dir", "%s %s -> %s: %s of <tmp>/%s" % (op["method"], target, status, kind, os.path.basename(rp)), dict(sigbase, zone="tmp", how="moved"), flagged)
+                    elif kind in ("creat", "mkdir"):
+                        tmp_named.add(rp)
                     continue
                 if zone == "system":
                     if mut:
@@ -389,6 +395,9 @@ class PathRun:
                     self.add("C13.probe-outside-root", "%s %s -> %s: %s of <arena>%s" % (op["method"], target, status, kind, rel), dict(sigbase), flagged)
                 else:
                     self.add("C13.read-outside-root", "%s %s -> %s: %s of <arena>%s" % (op["method"], target, status, kind, rel), dict(sigbase), flagged)
+        left = sorted(p for p in tmp_named if os.path.lexists(p))
+        if left:
+            self.add("C13.user-data-in-temp-dir", "%s %s -> %s: %s is still in the temp dir after the request" % (op["method"], target, status, [os.path.basename(p) for p in left[:3]]), dict(sigbase, zone="tmp", how="left"), flagged)
         if r is not None and r.body and MARK.encode() in r.body:
             self.add("C13.outside-data-served", "%s %s -> %s: the response contains decoy data" % (op["method"], target, status), sigbase, flagged)
         d = self.outside_digest()
